@@ -21,13 +21,13 @@ Rec == ndJsonDeserialize(IOEnv.TRACE)
 
 Ev == Rec[l]
 IsEv(a) == l <= Len(Rec) /\ Rec[l].a = a /\ l' = l + 1
-SeqOf(x) == [j \in 1..Len(x) |-> x[j]]
+TSeqOf(x) == [j \in 1..Len(x) |-> x[j]]
 SetOf(x) == {x[j] : j \in 1..Len(x)}
 
 Matches == /\ last'.ret.some = Ev.some
            /\ (Ev.some => last'.ret.v = Ev.ret)
-           /\ [j \in 1..Len(entries') |-> entries'[j].k] = SeqOf(Ev.keys)
-           /\ [j \in 1..Len(entries') |-> entries'[j].v] = SeqOf(Ev.vals)
+           /\ [j \in 1..Len(entries') |-> entries'[j].k] = TSeqOf(Ev.keys)
+           /\ [j \in 1..Len(entries') |-> entries'[j].v] = TSeqOf(Ev.vals)
            /\ Ev.iok
            /\ \A k \in TKeys : Ev.look[k] = M!LinearPos(entries', k)
 
